@@ -297,6 +297,17 @@ class Check(PropertyCheck):
                     lab += [("nsub",), ("n2h", "deliver"), ("h2n", "deliver")]
                 lab += [("nsub",)] * w + [("n2h", "drop")] * w + [("htimeout",), ("h2n", "deliver")]
                 cases.append({"seed": 1, "window": w, "n": 0, "fault": 0.0, "cancels": False, "directed": lab})
+        # directed: a send of the host fails by timeouts alone (every transmission lost) while the NCP stays healthy and goes
+        # on sending: what the host acknowledges afterwards it has handed up
+        for w in (1, 2, 3):
+            for before in (0, 2):
+                lab = []
+                for _ in range(before):
+                    lab += [("nsub",), ("n2h", "deliver"), ("h2n", "deliver")]
+                lab += [("hsub",)] + [("h2n", "drop"), ("htimeout",)] * 5
+                for _ in range(10):
+                    lab += [("nsub",), ("n2h", "deliver"), ("h2n", "deliver")]
+                cases.append({"seed": 1, "window": w, "n": 0, "fault": 0.0, "cancels": False, "directed": lab})
         return cases
 
     def run_impl(self, case):
@@ -349,7 +360,8 @@ class Check(PropertyCheck):
         for i, out in obs["dones"].items():
             if out == [0] and obs["ncp_up"].count(pl[i]) != 1:
                 return f"send {i} completed successfully but its payload was delivered {obs['ncp_up'].count(pl[i])} times"
-        if obs.get("ncp_acked_all") and not obs["failed"] and len(obs["host_up"]) != len(obs["ncp_subm"]):
+        if obs.get("ncp_acked_all") and len(obs["host_up"]) != len(obs["ncp_subm"]):
+            # (also when the host's own sends have failed meanwhile: what the host acknowledges it has accepted)
             return (f"every send of the NCP completed (acknowledged by the host) but only {len(obs['host_up'])} of "
                     f"{len(obs['ncp_subm'])} payloads were handed up on the host side")
         return None
